@@ -1150,6 +1150,7 @@ fn op_pool() -> Vec<String> {
         "rmr.r.1.0".into(),
         format!("setv.f.0.0.ge.{}", x("3")),
         format!("setv.h.0.0.lt.{}", x("1:2")),
+        format!("setv.f.0.0.eq.{}", x("1:2:3-4")),
         format!("setv.f.0.1.eq.{}", x("1")),
         format!("setv.h.1.0.gt.{}", x("2~rc1")),
         "unsetv.f.0.0".into(),
